@@ -7,6 +7,7 @@ from ..absint import Interp, St
 from ..effects import Effects
 from ..dspchk import check_df_wrapper, DSP
 from ..report import HOLDS, VIOLATED, UNKNOWN
+from .. import libmodel as lm
 
 
 def textbook_taps(halfp, d):
@@ -119,7 +120,9 @@ def _stencils(ctx):
     BIG = (Fr(2500) + Fr(1, 50), 2600)
     combos = combos + [(2, None, BIG[1])]
     for halfp, blocking, n in combos:
-        shifts_ = ((Fr(9, 4), Fr(-7, 2), Fr(3, 4), Fr(-1, 8), Fr(5), Fr(16, 3)) if thorough else (Fr(9, 4), Fr(-7, 2), Fr(3, 4)))
+        shifts_ = ((Fr(9, 4), Fr(-7, 2), Fr(3, 4), Fr(-1, 8), Fr(5), Fr(16, 3), Fr(0), Fr(1), Fr(-2)) if thorough else (Fr(9, 4), Fr(-7, 2), Fr(3, 4)))
+        # whole-sample shifts (pure displacement, zero = identity) with the cubic stencil
+        if halfp == 2 and blocking is None and n == sizes[0] and not thorough: shifts_ = shifts_ + (Fr(0), Fr(1), Fr(-2))
         if n == BIG[1]: shifts_ = (BIG[0],)
         for shift in shifts_:
             for path in ("constant", "varying", "drifting"):
@@ -137,7 +140,13 @@ def _stencils(ctx):
                             rows = F.axes[0][1]; fb = subst_val(F.body, {F.axes[0][0]: X.var(rv)})
                         else:
                             rows = X.const(1); fb = fr if F is None else F.body
-                        return Arr([(rv, rows), (kv, X.const(2) * hp)], lift1(lambda d_: mk_fn("tapw", [d_, X.var(kv)]), fb))
+                        def tap(d_):
+                            if d_.iszero():
+                                # a zero fractional delay: the Lagrange weights are the unit sample at the centre-left node (checked by R1 at d = 0)
+                                c_ = lm._cond_eq(X.var(kv), hp - 1, f"{kv}=={hp - 1!r}")
+                                return mk_pv(c_, X.const(1), X.const(0)) if not isinstance(c_, bool) else (X.const(1) if c_ else X.const(0))
+                            return mk_fn("tapw", [d_, X.var(kv)])
+                        return Arr([(rv, rows), (kv, X.const(2) * hp)], lift1(tap, fb))
                     return NotImplemented
                 I.hooks["call"] = call
                 # generic instance: unmodelled tests and "all/any elements equal ..." tests are false; tolerance tests (np.allclose) are left
@@ -195,7 +204,8 @@ def _stencils(ctx):
                         frac = mk_idx("dfr", [X.const(m)], "real") if path == "drifting" else X.const(shift - si)
                         want = X.const(0)
                         for k in range(2 * halfp):
-                            want = want + mk_idx("dat", [X.const(m + si - (halfp - 1) + k)], "complex") * mk_fn("tapw", [frac, X.const(k)])
+                            wk = (X.const(1 if k == halfp - 1 else 0) if (path != "drifting" and shift == si) else mk_fn("tapw", [frac, X.const(k)]))
+                            want = want + mk_idx("dat", [X.const(m + si - (halfp - 1) + k)], "complex") * wk
                         if gx is None or not gx.eq(want):
                             verdict = VIOLATED if gx is not None else UNKNOWN
                             detail = f"stencil misaligned: output sample {m}: {g!r} instead of {want!r}"[:300] + on; break
